@@ -60,6 +60,24 @@ fn timestamp_ms(timestamp: SystemTime) -> u64 {
     }
 }
 
+/// Returns true if a file with the given modification time could be modified again at the
+/// time `now` without getting a different modification time.
+fn is_racy(modified: SystemTime, now: SystemTime) -> bool {
+    let whole_seconds = match modified.duration_since(UNIX_EPOCH) {
+        Ok(since_epoch) => since_epoch.subsec_nanos() == 0,
+        Err(e) => e.duration().subsec_nanos() == 0,
+    };
+    let resolution = if whole_seconds {
+        Duration::from_secs(2)
+    } else {
+        Duration::ZERO
+    };
+    match now.duration_since(modified) {
+        Ok(age) => age < resolution,
+        Err(_) => true, // modified in the future
+    }
+}
+
 impl HashCache {
     /// Opens the file hash database located in the given directory.
     /// If the database doesn't exist yet, creates a new one.
@@ -106,11 +124,18 @@ impl HashCache {
         data_len: FileLen,
         hash: FileHash,
     ) -> Result<(), Error> {
+        let modified = file
+            .modified()
+            .map_err(|e| format!("Unable to get file modification timestamp: {e}"))?;
+        // A file that has just been modified can be modified again without a change of its
+        // modification time, if the file system keeps the timestamps with a resolution
+        // of 1 or 2 seconds (a timestamp without a fractional part). The entry would then
+        // be taken for valid although the contents are different, so don't store it yet.
+        if is_racy(modified, SystemTime::now()) {
+            return Ok(());
+        }
         let value = CachedFileInfo {
-            modified_timestamp_ms: timestamp_ms(
-                file.modified()
-                    .map_err(|e| format!("Unable to get file modification timestamp: {e}"))?,
-            ),
+            modified_timestamp_ms: timestamp_ms(modified),
             file_len: file.len(),
             data_len,
             hash,
